@@ -12,9 +12,12 @@ import (
 func Timeout(timeout time.Duration) func(message.HandlerFunc) message.HandlerFunc {
 	return func(h message.HandlerFunc) message.HandlerFunc {
 		return func(msg *message.Message) ([]*message.Message, error) {
-			ctx, cancel := context.WithTimeout(msg.Context(), timeout)
+			originalCtx := msg.Context()
+			ctx, cancel := context.WithTimeout(originalCtx, timeout)
 			defer func() {
 				cancel()
+				// don't leave the message with a canceled context (it may be handled again, e.g. by Retry)
+				msg.SetContext(originalCtx)
 			}()
 
 			msg.SetContext(ctx)
